@@ -29,7 +29,7 @@
         `is_sys_table` - so only CREATE TABLE and root moves write offsets, always fresh ones.) *)
 From Coq Require Import List NArith ZArith String.
 From Mkdb Require Import Model.Engine Proofs.TreeProofs Proofs.StoreInv Proofs.CrashBase Proofs.CrashPages
-  Proofs.CrashRedo Proofs.CrashLog Proofs.CrashMain.
+  Proofs.CrashRedo Proofs.CrashLog Proofs.CrashMain Proofs.CrashPrefix Proofs.CrashHist.
 Import ListNotations.
 Local Open Scope N_scope.
 
